@@ -62,6 +62,7 @@ type c37Case struct {
 	Hist  *c37Hist  `json:"hist,omitempty"`  // replay of a saved history: re-check only, nothing is executed
 	Cap   *c37Cap   `json:"cap,omitempty"`
 	Srv   *c37Srv   `json:"srv,omitempty"`
+	Hgt   *c37Hgt   `json:"hgt,omitempty"`
 }
 
 // ---- generators ------------------------------------------------------------------------------
@@ -204,6 +205,8 @@ func genC37(t *rapid.T) c37Case {
 			return genC37Cap(t)
 		case 1, 2:
 			return genC37Srv(t)
+		case 3, 4:
+			return genC37Hgt(t)
 		}
 	}
 	if conc {
@@ -473,7 +476,7 @@ func runC37(ctx *ev.Ctx, c c37Case) {
 		runC37Seq(ctx, c)
 	case "conc":
 		runC37Conc(ctx, c)
-	case "cap", "srv":
+	case "cap", "srv", "hgt":
 		runC37Cap(ctx, c)
 	default:
 		ctx.Failf("harness: unknown mode %q", c.Mode)
@@ -493,8 +496,10 @@ func TestC37(t *testing.T) {
 			"MAX_CAPACITY-0..3, 1..6 submissions (new / duplicate of pool / duplicate of pending / outsider) through the tx actor while gated validators "+
 			"hold their answers, then verification completes; (srv, 1 case in 16) the same server with instantly answering validators, pool pre-filled with "+
 			"1..4000 transactions verified at height 0, 1..6 rounds of consensus pool requests at rising heights (with submissions arriving meanwhile) / "+
-			"submissions / block commits, conservation of every admitted hash checked at quiescence after every round. non-trivial: (seq) a duplicate add was rejected and a get/unverified query met both valid and outdated "+
+			"submissions / block commits, conservation of every admitted hash checked at quiescence after every round; (hgt, 1 case in 16) a fresh real server whose stateful validator is a harness actor that HOLDS "+
+			"its answers: single-transaction block verifications and pool requests at rising heights, and answers released by the case carrying the height at request time, "+
+			"one lower, or the current one; a stateful answer below the height consensus works at now must lead to re-validation, never to acceptance. non-trivial: (seq) a duplicate add was rejected and a get/unverified query met both valid and outdated "+
 			"entries; (conc) at least one pair of operations of different goroutines really overlapped in time with a mutating operation among "+
-			"them; (cap) a submission met pool+pending at the capacity; (srv) a pool request met outdated entries; distinct by JSON encoding of the case",
+			"them; (cap) a submission met pool+pending at the capacity; (srv) a pool request met outdated entries; (hgt) an answer older than the current height was delivered; distinct by JSON encoding of the case",
 		genC37, runC37)
 }
